@@ -761,6 +761,35 @@ func specialTypesRule(c *Ctx, r *Report) {
 			}
 		}
 	})
+	// the other spelling of the reader: comparisons of the destination type with the package-level types, each
+	// followed by the call of its converter (switch baseType { case tDuration: return reifyDuration(…) })
+	type rcase struct {
+		g   string
+		ifi *ssa.If
+	}
+	var rcases []rcase
+	for _, b := range DP.Blocks {
+		ifi, ok := lastInstr(b).(*ssa.If)
+		if !ok {
+			continue
+		}
+		bo, ok := ifi.Cond.(*ssa.BinOp)
+		if !ok || bo.Op != token.EQL {
+			continue
+		}
+		for _, side := range []ssa.Value{bo.X, bo.Y} {
+			if u, ok := side.(*ssa.UnOp); ok && u.Op == token.MUL {
+				if g, ok := u.X.(*ssa.Global); ok && typeStr(g.Type()) == "*reflect.Type" {
+					if _, have := rset[g.Name()]; !have {
+						if f := firstRepoCall(c, b.Succs[0]); f != nil {
+							rset[g.Name()] = f
+							rcases = append(rcases, rcase{g.Name(), ifi})
+						}
+					}
+				}
+			}
+		}
+	}
 	var all []string
 	for g := range wset {
 		all = append(all, g)
@@ -807,6 +836,24 @@ func specialTypesRule(c *Ctx, r *Report) {
 					if _, isMap := lk.X.Type().Underlying().(*types.Map); isMap {
 						ok = true
 					}
+				}
+			}
+		}
+		if !ok && len(rcases) > 0 {
+			// comparison form: the predicate is consulted only after every special type was compared and differed
+			falseOf := map[*ssa.If]bool{}
+			for _, cd := range DomConds(ci.(ssa.Instruction).Block()) {
+				if !cd.Truth {
+					falseOf[cd.If] = true
+				}
+			}
+			ok = true
+			for _, rc := range rcases {
+				if !falseOf[rc.ifi] && reachableFromEdge(rc.ifi.Block(), rc.ifi.Block().Succs[0], ci.(ssa.Instruction).Block(), nil) {
+					ok = false
+				}
+				if !falseOf[rc.ifi] && !rc.ifi.Block().Dominates(ci.(ssa.Instruction).Block()) {
+					ok = false // the comparison is not on every way to the predicate
 				}
 			}
 		}
